@@ -116,6 +116,9 @@ func Property() runner.Property {
 			var out []runner.Sc
 			mk := func(name string, c ctl.Cfg, x expect) {
 				c.Name, c.Period, c.Mode, c.Bound = name, P, "S2", d
+				if len(c.Tree) > 1 && c.Bound > 1 {
+					c.Bound-- // the 4-branch tree doubles the goroutine count: one deviation less
+				}
 				out = append(out, ctl.Scenario("C14", c, oracle(x)))
 			}
 			causes := map[string]string{"error": "injected API failure", "nonlist": "Invalid type", "nonobjects": "Invalid type", "noaccessor": "Invalid type"}
